@@ -273,9 +273,14 @@ type JRand struct {
 	Reads   []RandRead
 	counter map[string]int
 	total   int
+
+	classFailed bool
 	// FailAt >= 0 makes the read with that running number fail (short if Short).
 	FailAt int
 	Short  bool
+	// FailClass/FailClassAt: instead, the FailClassAt-th read made by callers of that class fails
+	FailClass   string
+	FailClassAt int
 	// Fresh collects the ids of DH secrets drawn since it was last cleared.
 	Fresh []int
 	// TagOverride, if non-empty, supplies successive outputs for instance tag reads.
@@ -337,7 +342,9 @@ func (r *JRand) Read(b []byte) (int, error) {
 	class := classifyCaller()
 	n := r.total
 	r.total++
-	if r.FailAt == n {
+	if r.FailAt == n || (r.FailClass != "" && r.FailClass == class && r.counter[class] == r.FailClassAt && !r.classFailed) {
+		r.classFailed = r.FailClass != "" && r.FailClass == class
+		r.counter[class]++
 		if r.Short && len(b) > 1 {
 			r.fill(class+"/short", n, b[:len(b)/2])
 			r.Reads = append(r.Reads, RandRead{N: n, Len: len(b) / 2, Class: class + "/short"})
